@@ -59,8 +59,19 @@ def run(ctx):
             shapes += [(1, 1, 1), (12, 12, 6), (52, 12, 6), (41, 1, 1), (5, 5, 1)]
         else:
             ctx.notes["exhaustive"] = True
-        impl_hashes = []
-        for (T, W, N) in shapes:
+        # the calls are made in a shuffled order and every shape is stacked a second time in another order:
+        # state kept between calls (memoised index tables and the like) must not change the result
+        order1 = [int(i) for i in rng.permutation(len(shapes))]
+        order2 = [int(i) for i in rng.permutation(len(shapes))]
+        second = {}
+        for i2 in order2[: len(shapes) // 2]:
+            T2, W2, N2 = shapes[i2]
+            d2, _ = tagged_series(T2, N2, 0)
+            with ctx.guard("stack_training_data", {"T": T2, "W": W2, "N": N2, "pass": "warm-up in another order"}):
+                second[i2] = dp.stack_training_data(d2, W2).tobytes()
+        impl_hashes_by_index = {}
+        for i1 in order1:
+            (T, W, N) = shapes[i1]
             data, lut = tagged_series(T, N, 0)
             keep = data.copy()
             case = {"T": T, "W": W, "N": N}
@@ -76,10 +87,13 @@ def run(ctx):
                     ctx.violation("monitor", "special values (NaN, +-0, inf) not copied bit for bit", {"case": case, "stream": "special"})
                 if not np.array_equal(data.view(np.uint64), keep.view(np.uint64)):
                     ctx.violation("monitor", "input modified", {"case": case})
-            impl_hashes.append(h)
+            impl_hashes_by_index[i1] = h
+            if i1 in second and h != -1 and second[i1] != out.tobytes():
+                ctx.violation("monitor", "stacking the same series twice in one process gives different results (state kept between calls)", {"case": case})
             ctx.count("single")
             if T > W and W > 1:
                 ctx.mark_nontrivial(("s", T, W, N))
+        impl_hashes = [impl_hashes_by_index.get(i, -1) for i in range(len(shapes))]
         ctx.sample({"stream": "single", "T,W,N": shapes[0]})
         # ---- stream 2: several series
         multi = []
